@@ -14,10 +14,12 @@ pub fn install() {
                 s.clone()
             } else if info.payload().downcast_ref::<crate::track::fault::Injected>().is_some() {
                 "<injected fault>".to_string()
+            } else if info.payload().downcast_ref::<crate::track::HazardAbort>().is_some() {
+                "<hazard abort: user code was handed a dead key/value>".to_string()
             } else {
                 "<non-string panic payload>".to_string()
             };
-            let injected = info.payload().downcast_ref::<crate::track::fault::Injected>().is_some();
+            let injected = info.payload().downcast_ref::<crate::track::fault::Injected>().is_some() || info.payload().downcast_ref::<crate::track::HazardAbort>().is_some();
             let raw_loc = info.location().map(|l| l.file().to_string()).unwrap_or_default();
             if !injected && !raw_loc.starts_with("/repo/") && !raw_loc.starts_with("/rustc/") && !raw_loc.contains(".cargo/registry") {
                 // not the crate under test: a bug in the harness itself must never be silent
